@@ -12,7 +12,7 @@ fn tohex(b: &[u8]) -> String {
     b.iter().map(|x| format!("{:02x}", x)).collect()
 }
 
-#[derive(PartialEq, Debug, Clone)]
+#[derive(PartialEq, Eq, PartialOrd, Ord, Debug, Clone)]
 struct Bin(Vec<u8>);
 impl serde::Serialize for Bin {
     fn serialize<S: serde::Serializer>(&self, s: S) -> Result<S::Ok, S::Error> { s.serialize_bytes(&self.0) }
@@ -30,6 +30,19 @@ impl<'de> serde::Deserialize<'de> for Bin {
     }
 }
 fn serde_bytes_like(v: Vec<u8>) -> Bin { Bin(v) }
+/// reference RFC 4648 section 4 encoder (standard alphabet, padded), independent of the base64 crate
+fn ref_b64(b: &[u8]) -> String {
+    const A: &[u8; 64] = b"ABCDEFGHIJKLMNOPQRSTUVWXYZabcdefghijklmnopqrstuvwxyz0123456789+/";
+    let mut o = String::new();
+    for c in b.chunks(3) {
+        let n = (c[0] as u32) << 16 | (*c.get(1).unwrap_or(&0) as u32) << 8 | *c.get(2).unwrap_or(&0) as u32;
+        o.push(A[(n >> 18) as usize & 63] as char);
+        o.push(A[(n >> 12) as usize & 63] as char);
+        o.push(if c.len() > 1 { A[(n >> 6) as usize & 63] as char } else { '=' });
+        o.push(if c.len() > 2 { A[n as usize & 63] as char } else { '=' });
+    }
+    o
+}
 
 fn mk_resp<B>(op: &Value, body: B) -> http::Response<B> {
     let mut r = http::Response::new(body);
@@ -1011,6 +1024,38 @@ fn run(op: &Value) -> Value {
                 let back2 = conjure_serde::json::server_from_str::<f64>(&out).map(|b| b.to_bits() == v.to_bits() || (b.is_nan() && v.is_nan())).unwrap_or(false);
                 json!({"ok": out == exp && back && back2, "out": out})
             }
+        }
+        "json_binary" => {
+            // C01: binary as a JSON value and as a map key is padded standard-alphabet Base64; other spellings are refused
+            use std::collections::BTreeMap;
+            let b = hex(op["hex"].as_str().unwrap());
+            let want = ref_b64(&b);
+            let v = Bin(b.clone());
+            let out = conjure_serde::json::to_string(&v).unwrap_or_default();
+            let back = conjure_serde::json::client_from_str::<Bin>(&out).ok().as_ref() == Some(&v) && conjure_serde::json::server_from_str::<Bin>(&out).ok().as_ref() == Some(&v)
+                && conjure_serde::json::client_from_reader::<_, Bin>(out.as_bytes()).ok().as_ref() == Some(&v);
+            let mut m = BTreeMap::new(); m.insert(v.clone(), 1i32);
+            let kout = conjure_serde::json::to_string(&m).unwrap_or_default();
+            let kback = conjure_serde::json::client_from_str::<BTreeMap<Bin, i32>>(&kout).ok().as_ref() == Some(&m) && conjure_serde::json::server_from_str::<BTreeMap<Bin, i32>>(&kout).ok().as_ref() == Some(&m);
+            let sm = conjure_serde::smile::to_vec(&m).unwrap_or_default();
+            let sback = conjure_serde::smile::client_from_slice::<BTreeMap<Bin, i32>>(&sm).ok().as_ref() == Some(&m) && conjure_serde::smile::server_from_slice::<BTreeMap<Bin, i32>>(&sm).ok().as_ref() == Some(&m);
+            // spellings that are not the canonical one: padding stripped, URL-safe alphabet, trailing whitespace
+            let mut alts: Vec<String> = vec![];
+            if want.ends_with('=') { alts.push(want.trim_end_matches('=').to_string()); }
+            let url = want.replace('+', "-").replace('/', "_");
+            if url != want { alts.push(url); }
+            if !want.is_empty() { alts.push(format!("{} ", want)); alts.push(format!("{}=", want)); }
+            let mut accepted: Vec<String> = vec![];
+            for a in &alts {
+                let doc = serde_json::to_string(a).unwrap();
+                let kdoc = format!("{{{}:1}}", doc);
+                if conjure_serde::json::client_from_str::<Bin>(&doc).is_ok() || conjure_serde::json::server_from_str::<Bin>(&doc).is_ok()
+                    || conjure_serde::json::client_from_str::<BTreeMap<Bin, i32>>(&kdoc).is_ok() || conjure_serde::json::server_from_str::<BTreeMap<Bin, i32>>(&kdoc).is_ok() {
+                    accepted.push(a.clone());
+                }
+            }
+            let ok = out == format!("\"{}\"", want) && back && kout == format!("{{\"{}\":1}}", want) && kback && sback && accepted.is_empty();
+            json!({"ok": ok, "out": out, "key_out": kout, "want": want, "back": back, "key_back": kback, "smile_key_back": sback, "noncanonical_accepted": accepted})
         }
         "json_parse_f64" => {
             let text = String::from_utf8(hex(op["text_hex"].as_str().unwrap())).unwrap_or_default();
